@@ -888,6 +888,11 @@ func (fr *frame) callExternal(st *State, callee *ssa.Function, args []*Val, pos 
 		vc.bumpWM(st)
 	}
 	res := fr.arbitraryResult(st, sig)
+	if name == "(*golang.org/x/text/encoding.Encoder).Bytes" && len(args) == 2 && res != nil && len(res.Tuple) == 2 && res.Tuple[0].T != nil && args[1].T != nil {
+		// x/text encoders emit a bounded number of bytes per input byte
+		vc.assume(st.guard, vc.iCmp("<=", vc.slLen(res.Tuple[0].T), vc.iAdd(vc.iMul(vc.idx(4), vc.slLen(args[1].T)), vc.idx(64)), true))
+		vc.assumed["external "+name+": result length <= 4*len(input)+64"] = true
+	}
 	// errors.New / fmt.Errorf style constructors return non-nil errors of an external dynamic type
 	if strings.HasSuffix(name, "xerrors.New") || strings.HasSuffix(name, "xerrors.Errorf") || name == "errors.New" || name == "fmt.Errorf" {
 		vc.assume(st.guard, App(">=", SBool, vc.ifTag(res.T), IntLit64(extTagBase)))
